@@ -1939,6 +1939,8 @@ def clean_astext(node: nodes.Element) -> str:
         img["alt"] = ""
     for raw in list(findall(node)(nodes.raw)):
         raw.parent.remove(raw)
+    for msg in list(findall(node)(nodes.system_message)):
+        msg.parent.remove(msg)
     return node.astext()
 
 
